@@ -392,6 +392,9 @@ def _advanced_getitem(itp, arr, sels):
         def elem(idx):
             return ag((ig(tuple(idx[:r])),) + tuple(idx[r:]))
         return SArr.fresh(tuple(ind.shape) + tuple(arr.shape[1:]), elem, arr.dtype)
+    # (int array, full slice) on 2-D: a[idx, :] selects rows like a[idx]
+    if len(sels) == 2 and arr.ndim == 2 and isinstance(sels[0], SArr) and sels[0].dtype == "int" and isinstance(sels[1], tuple) and sels[1] == ("slice", None, None, None):
+        return _advanced_getitem(itp, arr, (sels[0],))
     # tuple of index arrays / scalars, one per axis (np.nonzero / unravel_index results)
     if len(sels) == arr.ndim and all(isinstance(s, SArr) and s.dtype == "int" or is_scalar(s) for s in sels):
         arrs = [s for s in sels if isinstance(s, SArr)]
